@@ -74,3 +74,18 @@ class Busy(Acc):
         for f in many_functions():
             x = f(x)
         return super().next_update(timestep, states)
+
+
+class Adaptive(Process):
+    """changes its own timestep by writing parameters['timestep'] (calculate_timestep is NOT overridden: the
+    inherited one reads the parameter)"""
+    defaults = {'pid': 0, 'timestep': 2.0}
+
+    def ports_schema(self):
+        return {'shared': {'count': {'_default': 0, '_emit': True}},
+                'own': {'elapsed': {'_default': 0.0, '_emit': True}}}
+
+    def next_update(self, timestep, states):
+        if states['own']['elapsed'] >= 2.0:
+            self.parameters['timestep'] = 0.5
+        return {'shared': {'count': 1}, 'own': {'elapsed': timestep}}
